@@ -93,10 +93,40 @@ func fastForward(t *rt.Tape, o *hx.Outcome) int {
 	if t.SW(3, 1) == 0 {
 		return 0
 	}
+	o.Fault("fast-forwarded-history")
+	return threshold(t, o) - 1 - t.S(12)
+}
+
+// threshold draws a round number at which a counter might wrap or be reset:
+// a power of two or a power of ten.
+func threshold(t *rt.Tape, o *hx.Outcome) int {
+	if t.S(3) == 0 {
+		k := []int{3, 6, 9}[t.S(3)]
+		o.Probe(fmt.Sprintf("fast-forward-to-10^%d", k))
+		v := 1
+		for i := 0; i < k; i++ {
+			v *= 10
+		}
+		return v
+	}
 	k := []uint{7, 8, 15, 16, 31, 32}[t.S(6)]
 	o.Probe(fmt.Sprintf("fast-forward-to-2^%d", k))
-	o.Fault("fast-forwarded-history")
-	return int(int64(1)<<k) - 1 - t.S(12)
+	return int(int64(1) << k)
+}
+
+// relabel moves the queue's whole index space up (keys and position counter
+// alike): the state an identical content would have after a much longer history.
+func relabel(q *cq.CircularQueue, to int) {
+	d := to - q.NextIndex
+	if d <= 0 {
+		return
+	}
+	items := make(map[int]rtcm.Message, len(q.Items))
+	for k, v := range q.Items {
+		items[k+d] = v
+	}
+	q.Items = items
+	q.NextIndex += d
 }
 
 func runC18(c *hx.Ctx) *hx.Outcome {
@@ -242,7 +272,17 @@ func runC18Sequential(c *hx.Ctx, o *hx.Outcome, n, ff int) *hx.Outcome {
 	var model []uint64
 	snapEvery := 1 + t.S(50)
 	o.Probe("sequential-long-runs")
+	warpAt, warpTo := -1, 0
+	if t.SBool(1, 3) {
+		// a fast-forward in the middle of the history, after some snapshots
+		warpAt = 1 + t.S(total)
+		warpTo = threshold(t, o) - 1 - t.S(2*n+4)
+		o.Fault("fast-forward-mid-history")
+	}
 	for i := 1; i <= total; i++ {
+		if i == warpAt {
+			relabel(q, warpTo)
+		}
 		q.Add(msgWithID(uint64(i)))
 		model = append(model, uint64(i))
 		if len(model) > n {
